@@ -253,7 +253,8 @@ def early_return_edges(g):
     for blk in g.blocks.values():
         if blk.cond is None or blk.cond not in g.nodes or len(blk.succ) != 2:
             continue
-        n = A.strip_casts(g.nodes[blk.cond])
-        if n['k'] == 'BinaryOperator' and n.get('op') == '==' and A.strip_casts(n['ch'][0]).get('d') in pds and n['ch'][1].get('v') == 0:
-            out.add((blk.b, 0))
+        for truth in (True, False):
+            z = A.zero_test(g.nodes[blk.cond], truth)
+            if z is not None and z[1] and z[0]['k'] == 'DeclRefExpr' and z[0].get('d') in pds:
+                out.add((blk.b, 0 if truth else 1))
     return out
